@@ -64,7 +64,9 @@ def runC14 (op : String) (j : Json) : R Json := do
     -- `impl_*`: rows read from the real export (absent when the check re-asks without the real output)
     let indsT := (← optField j "impl_inds_t" (asList (asList asNat))).getD []
     let indsC := (← optField j "impl_inds_c" (asList (asList asNat))).getD []
-    let e := exportAmpFiles dT dC f indsT indsC
+    -- `exportAmpFilesOnce` = `exportAmpFiles` (theorem `exportAmpFilesOnce_eq`, by `rfl`): the per-id amplitude table is
+    -- evaluated once instead of once per spike (long recordings)
+    let e := exportAmpFilesOnce dT dC f indsT indsC
     pure (Json.mkObj [("spikes_amps", jRats e.spikesAmps),
                       ("templates_amps", jList (jOpt jRat) e.templatesAmps),
                       ("templates_waveforms", jList (jOpt jRatMat) e.templatesWaveforms),
